@@ -75,8 +75,64 @@ def ansatz_catalogue(tier: str):
         out.append((f"gadget:double_excitation((0,1,2,3),{form})", gadget(add_double_excitation_circuit, 4, (0, 1, 2, 3), form), {"N", "Sz"}))
         out.append((f"gadget:double_excitation((2,1,0,3),{form})", gadget(add_double_excitation_circuit, 4, (2, 1, 0, 3), form), {"N", "Sz"}))
         out.append((f"gadget:orbital_rotation((0,1,2,3),{form})", gadget(add_orbital_rotation_gate, 4, (0, 1, 2, 3), form), {"N", "Sz"}))
+    # argument forms the ansatz classes never use: descending / interleaved excitation indices, a list instead of a tuple,
+    # a constant-only function (GateFabric's include_pi form), integer coefficients, one dict object reused by two gadgets
+    def gadget2(n, calls, pf_of):
+        def build():
+            c = LinearMappedParametricQuantumCircuit(n)
+            a, b = c.add_parameters("a", "b")
+            pf = pf_of(a, b)
+            for fn, idx in calls:
+                fn(c, idx, pf)
+            return c
+
+        return build
+
+    sx, dx, orb = add_single_excitation_circuit, add_double_excitation_circuit, add_orbital_rotation_gate
+    out.append(("gadget:single_excitation((1,0),scaled)", gadget2(2, [(sx, (1, 0))], lambda a, b: {a: 2.0}), {"N"}))
+    out.append(("gadget:single_excitation([2,0],param)", gadget2(3, [(sx, [2, 0])], lambda a, b: a), {"N", "Sz"}))
+    out.append(("gadget:single_excitation((1,3),int-coef)", gadget2(4, [(sx, (1, 3))], lambda a, b: {a: 2, b: -1}), {"N", "Sz"}))
+    out.append(("gadget:double_excitation((3,2,1,0),two)", gadget2(4, [(dx, (3, 2, 1, 0))], lambda a, b: {a: 1.0, b: -1.0}), {"N", "Sz"}))
+    out.append(("gadget:double_excitation([1,0,3,2],int-coef)", gadget2(4, [(dx, [1, 0, 3, 2])], lambda a, b: {a: 2}), {"N", "Sz"}))
+    out.append(("gadget:double_excitation((0,1,2,3),const)", gadget2(4, [(dx, (0, 1, 2, 3))], lambda a, b: {CONST: 2 * math.pi}), {"N", "Sz"}))
+    out.append(("gadget:orbital_rotation((3,2,1,0),const)", gadget2(4, [(orb, (3, 2, 1, 0))], lambda a, b: {CONST: math.pi}), {"N", "Sz"}))
+    out.append(("gadget:orbital_rotation([2,3,0,1],scaled)", gadget2(4, [(orb, [2, 3, 0, 1])], lambda a, b: {b: -2.0}), {"N", "Sz"}))
+    out.append(("gadget:reused-dict(double(0,1,2,3);single(0,2);orbital(0,1,2,3))",
+                gadget2(4, [(dx, (0, 1, 2, 3)), (sx, (0, 2)), (orb, (0, 1, 2, 3)), (dx, (1, 0, 3, 2))], lambda a, b: {a: 1.0, b: 2.0}), {"N", "Sz"}))
+
+    # the TwoLocal skeleton with rotation layers (the library's own subclasses only ever use "e…e" patterns and no
+    # rotation indices): RZ rotations and a Givens entangler (public gadget) both conserve the particle number
+    from quri_parts.algo.ansatz.two_local import TwoLocal
+
+    def two_local(n, pattern, rot_idx, emap):
+        def rot(c, arg):
+            li, q = arg
+            c.add_ParametricRZ_gate(q, c.add_parameter(f"r_{li}_{q}"))
+
+        def ent(c, arg):
+            li, (i, j) = arg
+            add_single_excitation_circuit(c, (i, j), c.add_parameter(f"e_{li}_{i}_{j}"))
+
+        return lambda: TwoLocal(n, pattern, rot, ent, rot_idx, emap)
+
+    out.append(("TwoLocal(3,'rer',RZ,Givens)", two_local(3, "rer", [0, 1, 2], [[(0, 1), (1, 2)]]), {"N"}))
+    out.append(("TwoLocal(4,'erre',RZ,Givens,rot=(3,1))", two_local(4, "erre", (3, 1), [[(0, 1), (2, 3)], [(3, 0), (2, 1)]]), {"N"}))
+    out.append(("TwoLocal(3,'rr',RZ,Givens,rot=range)", two_local(3, "rr", range(3), []), {"N"}))
     try:
         from quri_parts.openfermion.ansatz import KUpCCGSD, TrotterUCCSD
+        from quri_parts.openfermion.transforms import jordan_wigner
+
+        # optional flags and argument forms: no singles, Trotter number > 1 (angle coefficient 1/t), a mapping INSTANCE
+        # instead of the factory, a float delta_sz
+        out.append(("TrotterUCCSD(4,2,use_singles=False)", lambda: TrotterUCCSD(4, 2, use_singles=False), {"N", "Sz"}))
+        out.append(("TrotterUCCSD(4,2,trotter_number=2)", lambda: TrotterUCCSD(4, 2, trotter_number=2), {"N", "Sz"}))
+        out.append(("TrotterUCCSD(6,2,singlet,use_singles=False,trotter_number=2)",
+                    lambda: TrotterUCCSD(6, 2, use_singles=False, trotter_number=2, singlet_excitation=True), {"N", "Sz"}))
+        out.append(("TrotterUCCSD(4,2,mapping=jordan_wigner(4,2))", lambda: TrotterUCCSD(4, 2, jordan_wigner(4, 2)), {"N", "Sz"}))
+        out.append(("TrotterUCCSD(6,3,delta_sz=0.0)", lambda: TrotterUCCSD(6, 3, delta_sz=0.0), {"N", "Sz"}))
+        out.append(("KUpCCGSD(4,trotter_number=2)", lambda: KUpCCGSD(4, trotter_number=2), {"N", "Sz"}))
+        out.append(("KUpCCGSD(4,k=2,mapping=jordan_wigner(4),singlet)",
+                    lambda: KUpCCGSD(4, 2, jordan_wigner(4), singlet_excitation=True), {"N", "Sz"}))
 
         for n, e in ((4, 2), (6, 2), (4, 1), (6, 3)) + (((6, 4), (8, 4), (4, 3), (6, 1), (6, 5)) if big else ()):
             for sing in ((False, True) if e % 2 == 0 else (False,)):  # singlet excitations are refused for odd electron counts
@@ -89,6 +145,208 @@ def ansatz_catalogue(tier: str):
                                 lambda n=n, k=k, s=sing: KUpCCGSD(n, k=k, singlet_excitation=s), {"N", "Sz"}))
     except ImportError:
         pass
+    return out
+
+
+class HelperMissing(Exception):
+    """a private helper of the library that a case wants to reuse is not there (renamed / removed): not a verdict"""
+
+
+def extra_catalogue(tier: str):
+    """numeric-only cases, judged by the independent oracle alone (no Lean block obligations are generated for them):
+    (name, builder, promise, mode) with mode "build" (the builder must succeed) or "may-raise" (an exception of the real
+    code is an accepted outcome – a documented rejection – but a circuit that IS returned must keep the promise).
+    promise may contain "Sz%k": 2·S_z may only change by multiples of k (delta_sz = ±k/2 excitations)."""
+    from quri_parts.algo.ansatz import SymmetryPreserving, SymmetryPreservingReal, Z2SymmetryPreservingReal
+    from quri_parts.algo.ansatz.two_local import EntanglementPatternType, TwoLocal, build_entangler_map
+    from quri_parts.chem.ansatz import AllSinglesDoubles, GateFabric, ParticleConservingU1, ParticleConservingU2
+    from quri_parts.chem.utils.excitations import add_double_excitation_circuit, add_single_excitation_circuit
+    from quri_parts.chem.utils.orbital_rotation import add_orbital_rotation_gate
+    from quri_parts.circuit import CONST, LinearMappedParametricQuantumCircuit
+
+    big = tier != "quick"
+    out = []
+    B, R = "build", "may-raise"
+    P = EntanglementPatternType
+    NS = {"N", "Sz"}
+
+    # ---- sizes the block catalogue never builds (odd sizes, wrap-around maps on both parities of n, wide registers)
+    for n in (7, 9, 10) + ((11, 12) if big else ()):
+        for pats in ([P.CIRCULAR], [P.FULL, P.LINEAR], [P.LINEAR, P.CIRCULAR, P.FULL]):
+            em = build_entangler_map(n, pats)
+            tag = "+".join(p.name for p in pats)
+            out.append((f"SymmetryPreserving({n},{len(em)},{tag})", lambda n=n, em=em: SymmetryPreserving(n, len(em), em), {"N"}, B))
+            out.append((f"SymmetryPreservingReal({n},{len(em)},{tag})", lambda n=n, em=em: SymmetryPreservingReal(n, len(em), em), {"N", "real"}, B))
+            out.append((f"Z2SymmetryPreservingReal({n},{len(em)},{tag})", lambda n=n, em=em: Z2SymmetryPreservingReal(n, len(em), em), {"parity", "real"}, B))
+        out.append((f"SymmetryPreserving({n},3)", lambda n=n: SymmetryPreserving(n, 3), {"N"}, B))
+        out.append((f"SymmetryPreservingReal({n},3)", lambda n=n: SymmetryPreservingReal(n, 3), {"N", "real"}, B))
+        out.append((f"Z2SymmetryPreservingReal({n},3)", lambda n=n: Z2SymmetryPreservingReal(n, 3), {"parity", "real"}, B))
+    for n in (3, 5, 8, 10) + ((7, 12) if big else ()):
+        out.append((f"ParticleConservingU1({n},3)", lambda n=n: ParticleConservingU1(n, 3), {"N"}, B))
+        out.append((f"ParticleConservingU2({n},3)", lambda n=n: ParticleConservingU2(n, 3), {"N"}, B))
+    for n in (5, 7, 8, 10) + ((9, 12) if big else ()):
+        for pi in (False, True):
+            out.append((f"GateFabric({n},3,{pi})", lambda n=n, pi=pi: GateFabric(n, 3, pi), NS, B))
+    for n, f in ((5, 2), (7, 3), (8, 4), (8, 3), (10, 4)) + (((8, 5), (8, 6), (10, 5), (10, 6), (12, 4)) if big else ()):
+        out.append((f"AllSinglesDoubles({n},{f})", lambda n=n, f=f: AllSinglesDoubles(n, f), NS, B))
+    # degenerate sizes: nothing to excite / a register too small for one block
+    for name, b in (("AllSinglesDoubles(4,4)", lambda: AllSinglesDoubles(4, 4)), ("AllSinglesDoubles(4,0)", lambda: AllSinglesDoubles(4, 0)),
+                    ("AllSinglesDoubles(2,1)", lambda: AllSinglesDoubles(2, 1)), ("ParticleConservingU1(1,2)", lambda: ParticleConservingU1(1, 2)),
+                    ("ParticleConservingU2(1,2)", lambda: ParticleConservingU2(1, 2)), ("GateFabric(4,0)", lambda: GateFabric(4, 0)),
+                    ("ParticleConservingU1(4,0)", lambda: ParticleConservingU1(4, 0)), ("ParticleConservingU2(2,0)", lambda: ParticleConservingU2(2, 0)),
+                    ("GateFabric(6,1,include_pi=1)", lambda: GateFabric(6, 1, 1))):
+        out.append((name, b, NS if name.startswith(("All", "Gate")) else {"N"}, B))
+    for n in (0, 1, 2, 3):
+        out.append((f"GateFabric({n},1)", lambda n=n: GateFabric(n, 1), NS, R))  # "requires at least 4 qubits"
+    for cls, pr in ((SymmetryPreserving, {"N"}), (SymmetryPreservingReal, {"N", "real"}), (Z2SymmetryPreservingReal, {"parity", "real"})):
+        out.append((f"{cls.__name__}(1,1)", lambda cls=cls: cls(1, 1), pr, R))  # "Raises ValueError: if number of qubits is less than 2"
+        out.append((f"{cls.__name__}(3,0)", lambda cls=cls: cls(3, 0), pr, B))
+        out.append((f"{cls.__name__}(4,1,map longer than reps)", lambda cls=cls: cls(4, 1, [[(3, 2)], [(0, 1)]]), pr, B))
+        out.append((f"{cls.__name__}(4,2,map shorter than reps)", lambda cls=cls: cls(4, 2, [[(3, 2)]]), pr, R))
+        out.append((f"{cls.__name__}(4,2,numpy map)", lambda cls=cls: cls(4, 2, np.array([[[0, 1], [3, 2]], [[2, 0], [1, 3]]])), pr, R))
+        out.append((f"{cls.__name__}(4,2,tuple map)", lambda cls=cls: cls(4, 2, (((2, 1), (1, 2), (2, 1)), ((0, 3),))), pr, B))
+        out.append((f"{cls.__name__}(5,2,generator layer)", lambda cls=cls: cls(5, 2, [((i + 1, i) for i in range(4)), [(4, 0)]]), pr, B))
+
+    # ---- the TwoLocal skeleton itself, with the library's entanglers when they can be reached and RZ rotation layers
+    def two_local(n, pattern, rot_idx, emap, ent_of):
+        def rot(c, arg):
+            li, q = arg
+            c.add_ParametricRZ_gate(q, {c.add_parameter(f"r_{li}_{q}"): -1.0})
+
+        def build():
+            ent = ent_of()
+            if ent is None:
+                raise HelperMissing("entangler of the library class not reachable")
+            return TwoLocal(n, pattern, rot, ent, rot_idx, emap)
+
+        return build
+
+    def givens():
+        def ent(c, arg):
+            li, (i, j) = arg
+            add_single_excitation_circuit(c, (i, j), c.add_parameter(f"e_{li}_{i}_{j}"))
+
+        return ent
+
+    ents = [("Givens", givens, {"N"}), ("A", lambda: getattr(SymmetryPreserving, "_add_entanglement_gate", None), {"N"}),
+            ("SO4", lambda: getattr(SymmetryPreservingReal, "_add_entanglement_gate", None), {"N"}),
+            ("RxxRz", lambda: getattr(Z2SymmetryPreservingReal, "_add_entanglement_gates", None), {"parity"})]
+    for ename, ent_of, pr in ents:
+        for n, pattern, rot_idx, emap in ((4, "rere", [0, 1, 2, 3], build_entangler_map(4, [P.CIRCULAR, P.FULL])),
+                                          (5, "eerr", (4, 2, 0), [[(4, 0), (1, 3)], [(3, 1), (2, 4), (4, 2)]]),
+                                          (3, "rrer", range(2, -1, -1), [[(2, 0), (0, 2)]]),
+                                          (6, "r", [5, 0, 3, 0], []),
+                                          (9, "erer", list(range(0, 9, 2)), build_entangler_map(9, [P.CIRCULAR, P.LINEAR]))):
+            out.append((f"TwoLocal({n},{pattern!r},RZ,{ename},rot={list(rot_idx)})", two_local(n, pattern, rot_idx, emap, ent_of), pr, B))
+        out.append((f"TwoLocal(3,'rxe',RZ,{ename})", two_local(3, "rxe", [0], [[(0, 1)]], ent_of), pr, R))  # "Raises ValueError: other characters"
+        out.append((f"TwoLocal(3,'',RZ,{ename})", two_local(3, "", [0], [[(0, 1)]], ent_of), pr, B))
+        out.append((f"TwoLocal(6,'re',RZ,{ename},numpy indices)", two_local(6, "re", np.array([5, 0, 3]), np.array([[[1, 0], [4, 5]]]), ent_of), pr, R))
+
+    # ---- the gadgets on wide registers, far-apart / descending indices, exotic index containers
+    def gadget(n, calls, pf_of):
+        def build():
+            c = LinearMappedParametricQuantumCircuit(n)
+            a, b = c.add_parameters("a", "b")
+            pf = pf_of(a, b)
+            for fn, idx in calls:
+                fn(c, idx, pf)
+            return c
+
+        return build
+
+    sx, dx, orb = add_single_excitation_circuit, add_double_excitation_circuit, add_orbital_rotation_gate
+    forms = {"param": lambda a, b: a, "b": lambda a, b: b, "two": lambda a, b: {a: 0.7, b: -1.3}, "offset": lambda a, b: {a: 3, CONST: 0.37},
+             "const": lambda a, b: {CONST: 1.234}}
+    for fname, pf in forms.items():
+        out.append((f"gadget:single_excitation((6,2),{fname})", gadget(7, [(sx, (6, 2))], pf), NS, B))
+        out.append((f"gadget:single_excitation((0,5),{fname})", gadget(6, [(sx, (0, 5))], pf), {"N"}, B))
+        out.append((f"gadget:double_excitation((7,0,3,4),{fname})", gadget(8, [(dx, (7, 0, 3, 4))], pf), NS, B))
+        out.append((f"gadget:double_excitation((0,2,4,6),{fname})", gadget(7, [(dx, (0, 2, 4, 6))], pf), NS, B))
+        out.append((f"gadget:double_excitation((0,1,2,4),{fname})", gadget(5, [(dx, (0, 1, 2, 4))], pf), {"N"}, B))
+        out.append((f"gadget:orbital_rotation((6,1,2,5),{fname})", gadget(7, [(orb, (6, 1, 2, 5))], pf), NS, B))
+        out.append((f"gadget:orbital_rotation((0,1,3,4),{fname})", gadget(5, [(orb, (0, 1, 3, 4))], pf), {"N"}, B))
+    out.append(("gadget:double_excitation(numpy (0,1,2,3),two)", gadget(4, [(dx, np.array([0, 1, 2, 3]))], forms["two"]), NS, R))
+    out.append(("gadget:single_excitation(numpy (2,0),param)", gadget(3, [(sx, np.array([2, 0]))], forms["param"]), NS, R))
+    out.append(("gadget:orbital_rotation(numpy (1,0,3,2),offset)", gadget(4, [(orb, np.array([1, 0, 3, 2]))], forms["offset"]), NS, R))
+    out.append(("gadget:double_excitation((0,1,2,3),empty dict)", gadget(4, [(dx, (0, 1, 2, 3))], lambda a, b: {}), NS, R))
+    out.append(("gadget:single_excitation((0,2),empty dict)", gadget(3, [(sx, (0, 2))], lambda a, b: {}), NS, R))
+
+    try:
+        from quri_parts.openfermion.ansatz import KUpCCGSD, TrotterUCCSD
+        from quri_parts.openfermion.transforms import jordan_wigner
+        from quri_parts.openfermion.utils import add_exp_excitation_gates_trotter_decomposition as trot
+    except ImportError:
+        return out
+
+    def sz_promise(d):
+        return {"N", "Sz"} if d == 0 else {"N", f"Sz%{int(round(2 * abs(d)))}"}
+
+    # same-spin double excitations of the singlet parametrisation need ≥ 2 occupied and ≥ 2 virtual spatial orbitals
+    for n, e in ((8, 4),) + (((10, 4), (10, 6), (12, 6)) if big else ()):
+        for kw in ({"singlet_excitation": True}, {"singlet_excitation": True, "use_singles": False, "trotter_number": 2}, {}):
+            out.append((f"TrotterUCCSD({n},{e},{kw})", lambda n=n, e=e, kw=kw: TrotterUCCSD(n, e, **kw), NS, B))
+    for n, e in ((8, 2), (8, 6), (8, 3), (10, 4), (10, 5)) + (((10, 7), (12, 4), (12, 5)) if big else ()):
+        out.append((f"TrotterUCCSD({n},{e})", lambda n=n, e=e: TrotterUCCSD(n, e), NS, B))
+        if e % 2 == 0:
+            out.append((f"TrotterUCCSD({n},{e},singlet,mapping instance)",
+                        lambda n=n, e=e: TrotterUCCSD(n, e, jordan_wigner(n, e), 1, True, 0, True), NS, B))
+    # delta_sz ≠ 0: no S_z promise, but 2·S_z can only move in steps of 2·delta_sz; the particle number stays
+    for n, e, d in ((4, 2, 1), (4, 2, -1), (6, 3, 1), (6, 2, -1.0), (8, 4, 2), (8, 4, -2), (8, 3, 1), (6, 4, 2), (6, 2, 0.5), (6, 3, -0.0)):
+        out.append((f"TrotterUCCSD({n},{e},delta_sz={d})", lambda n=n, e=e, d=d: TrotterUCCSD(n, e, delta_sz=d), sz_promise(d), B))
+        out.append((f"TrotterUCCSD({n},{e},delta_sz={d},no singles,trotter 3)",
+                    lambda n=n, e=e, d=d: TrotterUCCSD(n, e, use_singles=False, trotter_number=3, delta_sz=d), sz_promise(d), B))
+    for n, d in ((4, 1), (4, -1), (6, 1), (6, 0.0), (8, -1), (6, 2)):
+        for k in (1, 2):
+            out.append((f"KUpCCGSD({n},k={k},delta_sz={d},trotter 2)",
+                        lambda n=n, k=k, d=d: KUpCCGSD(n, k, trotter_number=2, delta_sz=d), sz_promise(d), B))
+    for n in (2, 8, 10) + ((12,) if big else ()):
+        for sing in (False, True):
+            out.append((f"KUpCCGSD({n},k=2,singlet={sing})", lambda n=n, s=sing: KUpCCGSD(n, 2, singlet_excitation=s), NS, B))
+    out.append(("KUpCCGSD(6,k=0)", lambda: KUpCCGSD(6, k=0), NS, B))
+    out.append(("KUpCCGSD(4,k=3,mapping instance)", lambda: KUpCCGSD(4, 3, jordan_wigner(4)), NS, B))
+    # documented rejections (either an error or a circuit that keeps the promise; never a circuit that breaks it)
+    out.append(("TrotterUCCSD(4,1,singlet)", lambda: TrotterUCCSD(4, 1, singlet_excitation=True), NS, R))
+    out.append(("TrotterUCCSD(6,3,singlet,no singles)", lambda: TrotterUCCSD(6, 3, use_singles=False, singlet_excitation=True), NS, R))
+    out.append(("TrotterUCCSD(4,4)", lambda: TrotterUCCSD(4, 4), NS, R))
+    out.append(("TrotterUCCSD(4,5)", lambda: TrotterUCCSD(4, 5), NS, R))
+    out.append(("TrotterUCCSD(4,2,delta_sz=1,singlet)", lambda: TrotterUCCSD(4, 2, delta_sz=1, singlet_excitation=True), {"N"}, R))
+    out.append(("TrotterUCCSD(4,2,mapping for 6 orbitals)", lambda: TrotterUCCSD(4, 2, jordan_wigner(6, 2)), NS, R))
+    out.append(("TrotterUCCSD(4,2,mapping without n_fermions)", lambda: TrotterUCCSD(4, 2, jordan_wigner(4)), NS, R))
+    out.append(("TrotterUCCSD(4,0)", lambda: TrotterUCCSD(4, 0), NS, R))
+    out.append(("TrotterUCCSD(4,2,trotter_number=0)", lambda: TrotterUCCSD(4, 2, trotter_number=0), NS, R))
+    out.append(("KUpCCGSD(4,delta_sz=1,singlet)", lambda: KUpCCGSD(4, delta_sz=1, singlet_excitation=True), {"N"}, R))
+    out.append(("KUpCCGSD(4,mapping for 6 orbitals)", lambda: KUpCCGSD(4, 1, jordan_wigner(6)), NS, R))
+
+    # ---- the Trotterised exponentials as a public entry point of their own: generalised (not occupied→virtual),
+    # descending and repeated excitations, list-typed indices, shared parameters, arbitrary real coefficient
+    def trotter(n, excs, coef, share=False):
+        def build():
+            c = LinearMappedParametricQuantumCircuit(n)
+            ps = [c.add_parameter(f"t{i}") for i in range(1 if share else len(excs))]
+            trot(c, excs, ps * len(excs) if share else ps, jordan_wigner(n).of_operator_mapper, coef)
+            return c
+
+        return build
+
+    def spin_ok(ex):
+        h = len(ex) // 2
+        return sum(1 if q % 2 == 0 else -1 for q in ex[:h]) == sum(1 if q % 2 == 0 else -1 for q in ex[h:])
+
+    exc_sets = [
+        (6, [(0, 2), (4, 2), (5, 1), (3, 5)], 1.0),
+        (6, [(2, 0), (0, 2), (0, 2)], -0.5),
+        (5, [(0, 3), (4, 1), (2, 3)], 0.3),
+        (8, [(0, 1, 6, 7), (7, 6, 1, 0), (2, 5, 4, 3), (0, 2, 4, 6)], 0.25),
+        (6, [[0, 1, 2, 3], [5, 4, 1, 0], [1, 3, 5, 0]], 2.0),
+        (7, [(0, 1, 2, 4), (3, 6), (6, 5, 0, 1)], 1 / 3),
+        (8, [(0, 7, 2, 3), (5, 1, 3, 7), (6, 4, 0, 2)], 0.5),
+        (10, [(0, 9, 4, 5), (8, 2), (9, 1, 3, 7), (1, 9)], 1.0),
+    ]
+    for n, excs, coef in exc_sets:
+        pr = NS if all(spin_ok(tuple(e)) for e in excs) else {"N"}
+        out.append((f"trotter_decomposition({n},{excs},coef={coef:.3g})", trotter(n, excs, coef), pr, B))
+        out.append((f"trotter_decomposition({n},{excs},coef={coef:.3g},shared parameter)", trotter(n, excs, coef, True), pr, B))
+    out.append(("trotter_decomposition(4,[],1.0)", trotter(4, [], 1.0), NS, B))
     return out
 
 
